@@ -50,3 +50,18 @@ Inductive mstep :=
 | MBindFresh (v : string)     (* v = <new object> *)
 | MWrite (v : string)         (* setattr(v, ...), v.attr = ..., v[...] = ..., v.mutator(...) *)
 | MReturn (v : string).
+
+(* ------------------------------------------------------------------ uses of the Sphinx environment while reading (round 5) *)
+Inductive eclass :=
+| EComplete            (* complete before the first document is read: config, srcdir, found_docs, project paths, myst_config, app *)
+| ECurrentDoc          (* state of the document being read: docname, temp_data *)
+| EWriteOwnSlot        (* written (not read) under the current docname / through a Sphinx note_* API that is merged from the workers *)
+| EIdentity            (* only tested against None / truthiness *)
+| EUserDriven          (* handed to the document's own template expression *)
+| EFilledWhileReading. (* grows as documents are read BY THIS PROCESS: all_docs, titles, tocs, domaindata, metadata of others *)
+Definition eclass_eqb (a b : eclass) : bool :=
+  match a, b with
+  | EComplete, EComplete | ECurrentDoc, ECurrentDoc | EWriteOwnSlot, EWriteOwnSlot | EIdentity, EIdentity
+  | EUserDriven, EUserDriven | EFilledWhileReading, EFilledWhileReading => true
+  | _, _ => false
+  end.
